@@ -107,13 +107,15 @@ def gen_cases(rng, tier):
 
 def gen_hierarchy(rng):
     feats = []
-    pos = rng.randrange(1, 60)
+    # a third of the files sit on a bin boundary (2^17, 2^20): the .bin of introns and two-base sites then differs from the
+    # bin of the features they are cut from
+    pos = rng.choice([rng.randrange(1, 60), rng.randrange(1, 60), (1 << 17) - rng.randrange(0, 120), (1 << 20) - rng.randrange(0, 120)])
     ngenes = rng.choice([1, 1, 2])
     eid = 0
     tids_by_gene = []
     for g in range(ngenes):
         strand = rng.choice(["+", "-", "."])
-        feats.append(imp.mkfeat(seqid="chr1", source="src", type_="gene", s=1, e=9000, strand=strand, attrs=[["ID", ["g%d" % g]]]))
+        feats.append(imp.mkfeat(seqid="chr1", source="src", type_="gene", s=1, e=2000000, strand=strand, attrs=[["ID", ["g%d" % g]]]))
         tids = []
         for t in range(rng.choice([1, 1, 2, 3])):
             tid = "g%d.t%d" % (g, t)
@@ -121,7 +123,7 @@ def gen_hierarchy(rng):
             parents = ["g%d" % g]
             if g > 0 and rng.random() < 0.25:
                 parents.append("g0")                     # a transcript under two genes is visited once per gene
-            feats.append(imp.mkfeat(seqid="chr1", source="src", type_=rng.choice(["mRNA", "mRNA", "ncRNA"]), s=1, e=9000,
+            feats.append(imp.mkfeat(seqid="chr1", source="src", type_=rng.choice(["mRNA", "mRNA", "ncRNA"]), s=1, e=2000000,
                                     strand=rng.choice([strand, strand, "+", "-"]), attrs=[["ID", [tid]], ["Parent", parents]]))
         tids_by_gene.append(tids)
         for x in range(rng.choice([0, 1, 2, 3, 5, 7])):
